@@ -32,6 +32,7 @@ func runC07(c *core.Ctx) {
 	c.Rule("C07.edges", "A2: closeChildEdges calls Close (never Abort) on every element of n.outs without early exit; abortParentEdges calls Abort on every element of n.ins")
 	c.Rule("C07.edge", "A3: channelEdge.Close closes the messages channel only (the backlog stays readable; aborting is closed by Abort alone); Emit and Collect select on messages and aborting with no default; Close and Abort change state under e.mu")
 	c.Rule("C07.stop", "A2: ExecutingTask.stop: every node is stopped and waited for (walk callbacks that never return an error; stop before Wait), then et.wg.Wait(); walk visits every node of et.nodes in order")
+	c.Rule("C07.forklock", "A5 (must-hold lock set over go/cfg): every use of TaskMaster.forks/forkStats/taskToForkKeys, every method call on a value read out of forks (the fork edges: Collect in forkPoint, Close in delFork) and every call of a helper that needs the lock happens with tm.mu held on all paths reaching it; unexported methods without lock operations are helpers whose call sites carry the obligation; exported methods and function literals start without the lock")
 	c.Rule("C07.tm", "A2/A6: stopTask removes the task from tm.tasks and detaches it (delFork / delete batches) before et.stop(); delFork closes the fork edge with Close, never Abort; Close drains (Drain) before stopping tasks; StopTask/DeleteTask/StopTasks/Close hold tm.mu around stopTask")
 	c.Rule("C07.stopf", "A6 effect disjointness: for every node type that assigns node.stopF and whose run path reads an input edge, no object torn down by the stop function (Abort/Close/Stop/Kill method or close() on a field of the node) is used by the node's consuming path (run function, receiver callbacks, group receivers, transitively in the package); reviewed exceptions are verified structurally")
 	c.Rule("C07.sink", "A1/A2: InfluxDBOutNode: the write buffer is flushed and then aborted after the consumer returned (deferred after start() or placed after Consume), flush before abort; writeBuffer.run answers a flush request with writeAll and then the flushed signal; writeAll attempts every pending batch (no early exit) and forgets it; enqueue blocks on the queue unless the buffer is stopping (no default arm)")
@@ -403,6 +404,10 @@ func c09LoopNoExitErrOK(c *core.Ctx, rule, cons string, fn *core.Func, info *typ
 
 func c07TM(c *core.Ctx, pkg *packages.Package) {
 	info := pkg.TypesInfo
+	n := ruleMustHold(c, "C07.forklock", pkg, holdSpec{Typ: "TaskMaster", Mu: "mu",
+		Fields: map[string]bool{"forks": true, "forkStats": true, "taskToForkKeys": true}, Deref: map[string]bool{"forks": true},
+		Why: "StopTask/DeleteTask/Close take the lock and delFork closes the task's fork edge under it; a forking goroutine that reads the fork maps or sits in Collect on a fork edge without the lock is overtaken by the stop — the edge is closed under the blocked sender (send on closed channel: the daemon dies, in-flight data of every task is lost) or the maps are read while written"})
+	c.Floor("C07.forklock", "selections of guarded TaskMaster fields", n, 12)
 	if fn := c.Need("C07.tm", "", "TaskMaster", "stopTask"); fn != nil {
 		eng := &an.Engine{Prog: c.P,
 			TrackCall: func(call *ast.CallExpr, callee *types.Func) string {
